@@ -122,9 +122,19 @@ class StateVector(np.ndarray):
             else:
                 raise TypeError("'same' does not have a frame and/or a form attribute")
 
+        if isinstance(frame, str):
+            frame = get_frame(frame)
+        if isinstance(form, str):
+            form = get_form(form)
+
         if frame and frame != self.frame:
+            if form and form != self.form:
+                # The form asked for is reached from the cartesian coordinates in
+                # the new frame: the current form may be ill-defined there (e.g.
+                # keplerian elements relative to a ground station)
+                new_obj.form = "cartesian"
             new_obj.frame = frame
-        if form and form != self.form:
+        if form and form != new_obj.form:
             new_obj.form = form
 
         return new_obj
